@@ -295,6 +295,18 @@ func (r *Reader) parseWorksheet(data []byte, name string, index int) (*Sheet, er
 		}
 	}
 
+	// The grid is allocated densely from the largest row and column named in
+	// the file. Those numbers come from the file: refuse sizes outside what a
+	// worksheet can have (ECMA-376: 1,048,576 rows, 16,384 columns) and grids
+	// too large to hold, instead of allocating whatever the file asks for.
+	const maxSheetRows, maxSheetCols, maxGridCells = 1048576, 16384, 1 << 24
+	if maxRow < 0 || maxRow > maxSheetRows || maxCol < 0 || maxCol >= maxSheetCols {
+		return nil, fmt.Errorf("worksheet dimensions out of range: %d rows, %d columns", maxRow, maxCol+1)
+	}
+	if int64(maxRow)*int64(maxCol+1) > maxGridCells {
+		return nil, fmt.Errorf("worksheet grid too large: %d rows x %d columns", maxRow, maxCol+1)
+	}
+
 	sheet.MaxRow = maxRow - 1 // Convert to 0-indexed
 	sheet.MaxCol = maxCol
 
